@@ -84,7 +84,9 @@ class Seq:
             self.flags = [rng.choice([0, 1, 2, 3, 4, 6, 7, 7]) for _ in USERS]
             self.boot = [rng.choice([0, 0, 1, 2, 3, 5]) for _ in USERS]
             if r < 0.25:
-                self.flags[rng.choice(USERS)] = rng.choice([0, 4])   # bootstrap OTPs need a token-less user
+                u = rng.choice(USERS)
+                self.flags[u] = rng.choice([0, 4])   # bootstrap OTPs need a user without U2F/TOTP registrations
+                self.boot[u] = rng.choice([1, 2, 3, 5])
             self.mode = "okta" if rng.random() < 0.2 else "htp"
         self.ops = ["reset %d %d %d %d %s" % (self.flags[0], self.boot[0], self.flags[1], self.boot[1], self.mode)]
         self.cookies = []      # "u:l" in issue order (from model output)
@@ -119,10 +121,70 @@ class Seq:
             return str(1 - sub)
         return "x"
 
+    def other_cookie(self, ck):
+        """the cookie the adversary swaps in for the last step of a flow"""
+        r = self.rng.random()
+        if ":" not in ck or r < 0.55:
+            return ck
+        sub = ck.split(":")[0]
+        others = [c for c in self.cookies if c.split(":")[0] != sub]
+        same = [c for c in self.cookies if c.split(":")[0] == sub and c != ck]
+        if others and r < 0.85:
+            return self.rng.choice(others)
+        if same:
+            return self.rng.choice(same)
+        return ck
+
+    def flow(self):
+        """a coherent multi-step flow (so that upgrades really happen), its last step possibly hijacked"""
+        rng = self.rng
+        ck = self.pick_cookie()
+        sub = int(ck.split(":")[0]) if ":" in ck else rng.choice(USERS)
+        c2 = self.other_cookie(ck)
+        kinds = ["vip", "u2f", "wa", "cli", "totp2"] + (["okta", "okta"] if self.mode == "okta" else [])
+        kind = rng.choice(kinds)
+        if kind == "vip":
+            v = rng.choice(["1", "2", "3"])
+            if v not in self.vs:
+                self.vs.append(v)
+            ops = ["pushstart %s %s" % (ck, v), "approve %d" % self.ntx, "poll %s %s" % (c2, v)]
+            if rng.random() < 0.3:
+                ops.insert(2, rng.choice(["tick", "sweep", "poll %s %s" % (self.other_cookie(ck), v)]))
+            return ops
+        if kind in ("u2f", "wa"):
+            owner = sub if rng.random() < 0.75 else 1 - sub
+            regs = [t for t, bit in (("u", T_U2F), ("w", T_WA)) if self.flags[owner] & bit] or ["u", "w"]
+            tk = rng.choice(regs)
+            fin = rng.choice(["u2ffinish", "wafinish"]) if rng.random() < 0.3 else ("u2ffinish" if kind == "u2f" else "wafinish")
+            self.asserts.append((str(owner), tk, self.nchal))
+            ops = ["%sbegin %s" % (kind, ck), "%s %s %d %s %d" % (fin, c2, owner, tk, self.nchal)]
+            if rng.random() < 0.25:
+                ops.insert(1, rng.choice(["tick", "sweep", "%sbegin %s" % (kind, self.other_cookie(ck))]))
+            if rng.random() < 0.3:
+                ops.append("%s %s %d %s %d" % (rng.choice(["u2ffinish", "wafinish"]), self.other_cookie(ck), owner, tk, self.nchal))
+            return ops
+        if kind == "cli":
+            life = 120 if rng.random() < 0.85 else 0
+            self._tok_exp.append(self.now + life)
+            return ["showtoken %s %d" % (ck, life), "senddoc %s %d:%d" % (c2, sub, self.now + life)]
+        if kind == "totp2":
+            r = self.now + rng.choice([0, 0, 1, -1])
+            self.totp_used.append((str(sub), r))
+            return ["totp %s %d %d" % (ck, sub, r), rng.choice(["tick", "totp %s %d %d" % (c2, sub, r)]),
+                    "totp %s %d %d" % (self.other_cookie(ck), sub, r)]
+        return ["oktapushstart %s" % ck, "oktaapprove %d" % (sub if rng.random() < 0.8 else 1 - sub), "oktapoll %s" % c2]
+
     def extend(self, k):
         rng = self.rng
         self._tok_exp = getattr(self, "_tok_exp", [])
-        for _ in range(k):
+        target = len(self.ops) + k
+        while len(self.ops) < target:
+            if self.cookies and rng.random() < 0.3:
+                for op in self.flow():
+                    if op == "tick":
+                        self.now += 1
+                    self.ops.append(op)
+                continue
             table = [("login", 9), ("vipotp", 4), ("pushstart", 8), ("approve", 7), ("poll", 10), ("totp", 13),
                      ("bootstrap", 6), ("u2fbegin", 6), ("u2ffinish", 9), ("wabegin", 5), ("wafinish", 8),
                      ("showtoken", 3), ("senddoc", 4), ("logout", 1), ("tick", 8), ("sweep", 3)]
@@ -219,7 +281,7 @@ def gen_random(ctx, n, rounds=5, per_round=5):
             o = outs[i:i + len(s.ops)]
             i += len(s.ops)
             learn(s, o[s.seen:])
-    return [s.ops for s in seqs]
+    return [s.ops[:26] for s in seqs]   # reset + at most 25 ops
 
 
 # ----------------------------------------------------------------------------- exhaustive enumeration (thorough)
